@@ -223,6 +223,7 @@ class MainLoop(Contract):
         return {'driver': 'main', 'scenarios': sc} if sc else None
     slice_from = 'updatetime'
     canary = True
+    safety_tags = {'C17', 'C14'}     # "finishes the step, writes the final record, reports and exits successfully": nothing undefined on the way
     property_inits = {'projection_fresh'}   # ... and so is this entry condition of the loop (C11): a refuted one stands
     property_hints = True      # the per-iteration reference term IS the statement of C12/C05 (step result independent of the output block)
 
